@@ -3,9 +3,27 @@ package c10
 // Concurrent histories of point operations on one shared instance.
 //
 // A program is a few calls made by goroutine 0 alone (the prefix) followed by
-// 2-4 goroutines x 3-6 calls started together, over the three hot keys of a
-// pool whose keys share a hash bucket.  The same program (seed, gen, case) is
-// executed in two ways:
+// 2-4 goroutines started together.  Four shapes (genProgram):
+//
+//	mix    3-6 random point operations per goroutine over the three hot keys
+//	       of a pool whose keys share a hash bucket
+//	duel   a populated instance and 5-9 calls per goroutine drawn mostly from
+//	       a palette of one or two operations: the same destructive operation
+//	       meets itself (remove-last x remove-last, put k x remove k ...); an
+//	       operation that is not ONE critical section shows here
+//	grow   (hash collections) a pool of 84 keys, a prefix that fills the
+//	       default table to just below its threshold, then insertions of
+//	       fresh keys (the table re-hashes) against lookups / removals
+//	block  (queues) consumers in the BLOCKING dequeue, several at a time, and
+//	       producers that put later and fewer elements than there are waiters
+//
+// Every call may be preceded by a yield or a short sleep, and each history
+// runs with its own GOMAXPROCS (all, 1, 2, 4): with one processor goroutines
+// change only at yields, sleeps and blocking calls, which walks through the
+// operation-level interleavings; with many the calls really overlap.  Timing
+// only decides which interleaving is observed, never a verdict.
+//
+// The same program (seed, gen, case) is executed in two ways:
 //
 //	stamped    (plain build, gen "lin")  every call is bracketed by an Inv and a
 //	           Ret record appended to ONE mutex-protected log; the Inv record is
@@ -41,23 +59,28 @@ type Ev = core.Ev
 
 // pop is one planned call.
 type pop struct {
-	Name string
-	K, V int
+	Name  string
+	K, V  int
+	Pause int // microseconds to sleep before the call (0: none): steers the schedule only
 }
 
 // cobj is one real collection behind the point-operation face.
 type cobj struct {
 	Type   string
 	Ctor   string
-	Hdr    Ev              // conventions of the type for the Reset event
-	Names  []string        // the point operations it offers (event names)
-	Call   func(op pop) Ev // performs the call, returns the projected result fields
-	SetMax func(n int)     // nil: no bound
-	Final  func() Ev       // full content after the history (single-threaded)
-	Unique bool            // elements are unique per call (list, queue)
-	NK     int             // hot keys 1..NK
-	Lin    bool            // judged for linearizability (false: race observation only)
-	Pool   []string        // human readable
+	Hdr    Ev                     // conventions of the type for the Reset event
+	Names  []string               // the point operations it offers (event names)
+	Call   func(op pop) Ev        // performs the call, returns the projected result fields
+	Bind   func(op pop) func() Ev // optional: the same call with everything looked up beforehand
+	SetMax func(n int)            // nil: no bound
+	Final  func() Ev              // full content after the history (single-threaded)
+	Unique bool                   // elements are unique per call (list, queue)
+	NK     int                    // hot keys 1..NK
+	Lin    bool                   // judged for linearizability (false: race observation only)
+	Pool   []string               // human readable
+	Cap    int                    // queues: the capacity (0 = unbounded)
+	Puts   []string               // queues: the plain enqueue operations
+	Get    string                 // queues: the blocking dequeue
 }
 
 func (o *cobj) has(n string) bool {
@@ -78,9 +101,19 @@ var dictPointOps = []string{"Put", "PutFirst", "PutLast", "Add", "AddFirst", "Ad
 
 var mutators = map[string]bool{"Put": true, "PutFirst": true, "PutLast": true, "Add": true, "AddFirst": true, "AddLast": true,
 	"AddNoOver": true, "AddIfExist": true, "Unipoint": true, "Remove": true, "RemoveFirst": true, "RemoveLast": true, "Clear": true,
-	"GetLRU": true, "LAddFirst": true, "LAddLast": true, "LAdd": true, "QPut": true, "QPutForce": true, "QGetNoWait": true, "QGetTimeout": true,
-	"QPut1": true, "QPut2": true, "QPutForce1": true, "QPutForce2": true}
+	"GetLRU": true, "LAddFirst": true, "LAddLast": true, "LAdd": true, "QPut": true, "QPutForce": true, "QGetNoWait": true, "QGetTimeout": true, "QGet": true,
+	"DPut1": true, "DPut2": true, "DPutForce1": true, "DPutForce2": true, "DGetNoWait": true, "DGetTimeout": true, "DGet": true}
 var sizeOps = map[string]bool{"Size": true, "IsEmpty": true, "Size1": true, "Size2": true}
+
+// the blocking dequeues: only in programs built so that every such call is served (shape "block")
+var blockingOps = map[string]bool{"QGet": true, "DGet": true}
+
+// operations that insert (used to populate), that remove one element without waiting
+var insertOps = map[string]bool{"Put": true, "PutFirst": true, "PutLast": true, "Add": true, "AddFirst": true, "AddLast": true, "Unipoint": true,
+	"LAddFirst": true, "LAddLast": true, "LAdd": true, "QPut": true, "DPut1": true, "DPut2": true}
+
+// pool size of the "grow" shape: the default table (101 buckets, load factor 0.75) re-hashes at the 75th entry
+const growPool = 84
 
 // ctor variants for the types that take (capacity, load factor): a one-bucket
 // table re-hashes on nearly every insertion
@@ -102,6 +135,10 @@ func sources() []source {
 				ct = linCtors[variant%len(linCtors)]
 			}
 			fresh := td.New(r, 3, ct, true)
+			if variant%4 == 3 { // the big pool on the default table (shape "grow")
+				ct = c09.Ctor{Default: true}
+				fresh = td.New(r, growPool, ct, false)
+			}
 			return func() *cobj {
 				o := fresh()
 				co := &cobj{Type: o.Type, Ctor: ct.String(), NK: o.N, Lin: true, Hdr: Ev{"plain": false}}
@@ -121,6 +158,13 @@ func sources() []source {
 					}
 					return o.Ops[op.Name](hmapx.Op{Name: op.Name, K: op.K, V: op.V})
 				}
+				co.Bind = func(op pop) func() Ev {
+					f, x := o.Ops[op.Name], hmapx.Op{Name: op.Name, K: op.K, V: op.V}
+					if op.Name == "Size" || f == nil {
+						return nil
+					}
+					return func() Ev { return f(x) }
+				}
 				if o.Has("SetMax") {
 					co.SetMax = func(n int) { o.Ops["SetMax"](hmapx.Op{Name: "SetMax", V: n}) }
 				}
@@ -139,6 +183,10 @@ func sources() []source {
 				ct = c12.Ctor{Default: lc.Default, Cap: lc.Cap, LF: lc.LF}
 			}
 			fresh := td.New(r, 3, ct, true)
+			if variant%4 == 3 {
+				ct = c12.Ctor{Default: true}
+				fresh = td.New(r, growPool, ct, false)
+			}
 			return func() *cobj {
 				o := fresh()
 				co := &cobj{Type: o.Type, Ctor: ct.String(), NK: o.N, Lin: true, Pool: o.Pool,
@@ -154,6 +202,13 @@ func sources() []source {
 						return Ev{"n": o.Size()}
 					}
 					return o.Ops[op.Name](c12.Op{Name: op.Name, K: op.K, V: op.V})
+				}
+				co.Bind = func(op pop) func() Ev {
+					f, x := o.Ops[op.Name], c12.Op{Name: op.Name, K: op.K, V: op.V}
+					if op.Name == "Size" || f == nil {
+						return nil
+					}
+					return func() Ev { return f(x) }
 				}
 				co.Final = func() Ev {
 					ks, vs := o.Proj()
@@ -214,6 +269,15 @@ func newListObj() *cobj {
 		}
 		return Ev{}
 	}
+	co.Bind = func(op pop) func() Ev {
+		switch op.Name {
+		case "RemoveFirst":
+			return func() Ev { return Ev{"ret": elemOf(l.RemoveFirst())} }
+		case "RemoveLast":
+			return func() Ev { return Ev{"ret": elemOf(l.RemoveLast())} }
+		}
+		return nil
+	}
 	co.Final = func() Ev {
 		arr := []int{}
 		for _, x := range l.ToArray() {
@@ -225,12 +289,14 @@ func newListObj() *cobj {
 }
 
 // the single queue as a bounded deque of unique elements: a refused plain put
-// leaves it alone, a forced put evicts from the head (LinkedDict with a bound)
+// leaves it alone, a forced put evicts from the head (LinkedDict with a bound);
+// the blocking dequeue takes the head once there is one
 func newQueueObj(capacity int) *cobj {
 	q := queue.NewRequestQueue(capacity)
-	co := &cobj{Type: "RequestQueue", Ctor: fmt.Sprintf("cap=%d", capacity), Unique: true, Lin: true,
+	co := &cobj{Type: "RequestQueue", Ctor: fmt.Sprintf("cap=%d", capacity), Unique: true, Lin: true, Cap: capacity,
 		Hdr:   Ev{"plain": false, "set": true, "none": []int{}, "rej": false, "ek": 0, "max": capacity},
-		Names: []string{"QPut", "QPutForce", "QGetNoWait", "QGetTimeout", "Clear", "Size"}}
+		Names: []string{"QPut", "QPutForce", "QGetNoWait", "QGetTimeout", "QGet", "Clear", "Size"},
+		Puts:  []string{"QPut"}, Get: "QGet"}
 	co.Call = func(op pop) Ev {
 		switch op.Name {
 		case "QPut":
@@ -241,6 +307,8 @@ func newQueueObj(capacity int) *cobj {
 			return Ev{"ret": elemOf(q.GetNoWait())}
 		case "QGetTimeout":
 			return Ev{"ret": elemOf(q.GetTimeout(1))}
+		case "QGet":
+			return Ev{"ret": elemOf(q.Get())}
 		case "Clear":
 			q.Clear()
 		case "Size":
@@ -263,45 +331,68 @@ func newQueueObj(capacity int) *cobj {
 	return co
 }
 
-// the double queue: its linearizability is judged by C11 (Trace_ReqQueue); here
-// it only runs under the race detector
+// the double queue: two lanes of unique elements, each with its own bound; a
+// dequeue serves lane 1 first.  In the dictionary of the specification the
+// value stored under an element is its lane.
 func newDoubleQueueObj(capacity int) *cobj {
 	q := queue.NewRequestDoubleQueue(capacity, capacity)
-	co := &cobj{Type: "RequestDoubleQueue", Ctor: fmt.Sprintf("cap=%d", capacity), Unique: true, Lin: false,
-		Hdr:   Ev{"plain": false, "set": true, "none": []int{}, "rej": false, "ek": 0, "max": capacity},
-		Names: []string{"QPut1", "QPut2", "QPutForce1", "QPutForce2", "QGetNoWait", "QGetTimeout", "Clear", "Size", "Size1", "Size2"}}
+	co := &cobj{Type: "RequestDoubleQueue", Ctor: fmt.Sprintf("cap=%d", capacity), Unique: true, Lin: true, Cap: capacity,
+		Hdr:   Ev{"plain": false, "set": false, "none": []int{}, "rej": false, "ek": 0, "max": 0, "cap": []int{capacity, capacity}},
+		Names: []string{"DPut1", "DPut2", "DPutForce1", "DPutForce2", "DGetNoWait", "DGetTimeout", "DGet", "Clear", "Size", "Size1", "Size2"},
+		Puts:  []string{"DPut1", "DPut2"}, Get: "DGet"}
 	co.Call = func(op pop) Ev {
 		switch op.Name {
-		case "QPut1":
-			q.Put1(op.K)
-		case "QPut2":
-			q.Put2(op.K)
-		case "QPutForce1":
-			q.PutForce1(op.K)
-		case "QPutForce2":
-			q.PutForce2(op.K)
-		case "QGetNoWait":
-			q.GetNoWait()
-		case "QGetTimeout":
-			q.GetTimeout(1)
+		case "DPut1":
+			return Ev{"ok": q.Put1(op.K)}
+		case "DPut2":
+			return Ev{"ok": q.Put2(op.K)}
+		case "DPutForce1":
+			return Ev{"ok": q.PutForce1(op.K)}
+		case "DPutForce2":
+			return Ev{"ok": q.PutForce2(op.K)}
+		case "DGetNoWait":
+			return Ev{"ret": elemOf(q.GetNoWait())}
+		case "DGetTimeout":
+			return Ev{"ret": elemOf(q.GetTimeout(1))}
+		case "DGet":
+			return Ev{"ret": elemOf(q.Get())}
 		case "Clear":
 			q.Clear()
 		case "Size":
-			q.Size()
+			return Ev{"n": q.Size()}
 		case "Size1":
-			q.Size1()
+			return Ev{"n": q.Size1()}
 		case "Size2":
-			q.Size2()
+			return Ev{"n": q.Size2()}
 		}
 		return Ev{}
 	}
-	co.Final = func() Ev { return Ev{"n": q.Size()} }
+	co.Final = func() Ev {
+		n := q.Size()
+		l1, l2 := []int{}, []int{}
+		for i := 0; i < 1000; i++ {
+			first := q.Size1() > 0
+			x := q.GetNoWait()
+			if x == nil {
+				break
+			}
+			if first {
+				l1 = append(l1, elemOf(x)...)
+			} else {
+				l2 = append(l2, elemOf(x)...)
+			}
+		}
+		return Ev{"n": n, "lane1": l1, "lane2": l2}
+	}
 	return co
 }
 
 // ---------------------------------------------------------------- programs
 
 type program struct {
+	Shape   string
+	Step    bool // lockstep: the goroutines wait for each other before every call (see runProgram)
+	Procs   int  // GOMAXPROCS while the history runs (0: leave it alone)
 	Max     int
 	Prefix  []pop
 	Threads [][]pop
@@ -320,6 +411,7 @@ func pickOp(r *rand.Rand, co *cobj) string {
 		n := co.Names[r.Intn(len(co.Names))]
 		x := r.Intn(100)
 		switch {
+		case blockingOps[n]: // only in shape "block"
 		case n == "Clear":
 			if x < 12 {
 				return n
@@ -338,14 +430,49 @@ func pickOp(r *rand.Rand, co *cobj) string {
 	}
 }
 
-func genProgram(r *rand.Rand, co *cobj) *program {
-	p := &program{}
-	if co.SetMax != nil && r.Intn(3) == 0 {
-		p.Max = 1 + r.Intn(2)
+func (o *cobj) among(set map[string]bool) []string {
+	var out []string
+	for _, n := range o.Names {
+		if set[n] {
+			out = append(out, n)
+		}
 	}
+	return out
+}
+
+// directed effort (args ops=A+B, golib method names): every history is a duel
+// over the point operations that go through these methods
+var directedOps []string
+
+// event name of a point operation -> the golib method it calls (where they differ)
+var methodOf = map[string]string{"LAddFirst": "AddFirst", "LAddLast": "AddLast", "LAdd": "Add", "Touch": "GetFirst",
+	"QPut": "Put", "QPutForce": "PutForce", "QGetNoWait": "GetNoWait", "QGetTimeout": "GetTimeout", "QGet": "Get",
+	"DPut1": "Put1", "DPut2": "Put2", "DPutForce1": "PutForce1", "DPutForce2": "PutForce2",
+	"DGetNoWait": "GetNoWait", "DGetTimeout": "GetTimeout", "DGet": "Get"}
+
+func directed(co *cobj) []string {
+	var out []string
+	for _, n := range co.Names {
+		m := methodOf[n]
+		if m == "" {
+			m = n
+		}
+		for _, d := range directedOps {
+			if d == m && !blockingOps[n] {
+				out = append(out, n)
+			}
+		}
+	}
+	return out
+}
+
+var lookupOps = map[string]bool{"Get": true, "GetLRU": true, "ContainsKey": true, "Contains": true, "HasKey": true, "Remove": true}
+
+func genProgram(r *rand.Rand, co *cobj) *program {
+	p := &program{Procs: []int{0, 0, 1, 2, 4}[r.Intn(5)]}
 	uniq := 0
-	mk := func(th int) pop {
-		op := pop{Name: pickOp(r, co)}
+	mk := func(name string) pop {
+		op := pop{Name: name}
 		if co.Unique {
 			uniq++
 			op.K = uniq
@@ -355,18 +482,177 @@ func genProgram(r *rand.Rand, co *cobj) *program {
 		}
 		return op
 	}
-	for i, n := 0, r.Intn(4); i < n; i++ {
-		p.Prefix = append(p.Prefix, mk(0))
+	x := r.Intn(10)
+	switch {
+	case len(directedOps) > 0:
+		genDuel(r, co, p, mk)
+	case !co.Unique && co.NK >= growPool/2:
+		genGrow(r, co, p)
+	case co.Get != "" && co.Cap == 0 && x < 4:
+		genBlock(r, co, p, mk)
+	case x < 7:
+		genDuel(r, co, p, mk)
+	default:
+		p.Shape = "mix"
+		if co.SetMax != nil && r.Intn(3) == 0 {
+			p.Max = 1 + r.Intn(2)
+		}
+		for i, n := 0, r.Intn(4); i < n; i++ {
+			p.Prefix = append(p.Prefix, mk(pickOp(r, co)))
+		}
+		nt := 2 + r.Intn(3)
+		for t := 0; t < nt; t++ {
+			var ops []pop
+			for i, n := 0, 3+r.Intn(4); i < n; i++ {
+				ops = append(ops, mk(pickOp(r, co)))
+			}
+			p.Threads = append(p.Threads, ops)
+		}
 	}
+	return p
+}
+
+// duel: a populated instance; the goroutines issue mostly the same one or two
+// operations, for the hash collections mostly on one key.
+func genDuel(r *rand.Rand, co *cobj, p *program, mk func(string) pop) {
+	p.Shape = "duel"
+	p.Step = r.Intn(3) > 0
+	if co.SetMax != nil && r.Intn(3) == 0 {
+		p.Max = 1 + r.Intn(2)
+	}
+	ins := co.among(insertOps)
+	if co.Unique {
+		n := 4 + r.Intn(8)
+		if r.Intn(2) == 0 { // enough for every goroutine to find something to take until its last call
+			n = 24 + r.Intn(16)
+		}
+		for i := 0; i < n && len(ins) > 0; i++ {
+			p.Prefix = append(p.Prefix, mk(ins[r.Intn(len(ins))]))
+		}
+	} else {
+		for k := 1; k <= co.NK && len(ins) > 0; k++ {
+			if r.Intn(5) > 0 {
+				op := mk(ins[r.Intn(len(ins))])
+				op.K = k
+				p.Prefix = append(p.Prefix, op)
+			}
+		}
+	}
+	palette := []string{pickOp(r, co)}
+	if r.Intn(5) < 2 {
+		palette = append(palette, pickOp(r, co))
+	}
+	if d := directed(co); len(d) > 0 {
+		palette = d
+		p.Procs = 0
+	}
+	focus := 1 + r.Intn(co.NK+1)
 	nt := 2 + r.Intn(3)
 	for t := 0; t < nt; t++ {
 		var ops []pop
-		for i, n := 0, 3+r.Intn(4); i < n; i++ {
-			ops = append(ops, mk(t))
+		for i, n := 0, 5+r.Intn(5); i < n; i++ {
+			name := palette[r.Intn(len(palette))]
+			if r.Intn(8) == 0 {
+				name = pickOp(r, co)
+			}
+			op := mk(name)
+			if !co.Unique && focus <= co.NK && r.Intn(5) < 3 {
+				op.K = focus
+			}
+			ops = append(ops, op)
 		}
 		p.Threads = append(p.Threads, ops)
 	}
-	return p
+}
+
+// grow: the prefix fills the default table to just below its threshold; then
+// fresh keys go in (the table re-hashes) while present keys are looked up,
+// touched and removed.
+func genGrow(r *rand.Rand, co *cobj, p *program) {
+	p.Shape = "grow"
+	ins := ""
+	for _, n := range []string{"Put", "Add", "PutLast", "AddLast", "Unipoint", "PutFirst", "AddFirst"} {
+		if co.has(n) {
+			ins = n
+			break
+		}
+	}
+	look := co.among(lookupOps)
+	t0 := co.NK - 13 + r.Intn(4) // 71..74 of 84
+	if t0 < 1 {
+		t0 = 1
+	}
+	for k := 1; k <= t0 && ins != ""; k++ {
+		p.Prefix = append(p.Prefix, pop{Name: ins, K: k, V: 1 + r.Intn(3)})
+	}
+	next := t0 + 1
+	nt := 2 + r.Intn(3)
+	for t := 0; t < nt; t++ {
+		var ops []pop
+		for i, n := 0, 5+r.Intn(5); i < n; i++ {
+			switch {
+			case ins != "" && next <= co.NK && (r.Intn(2) == 0 || len(look) == 0):
+				ops = append(ops, pop{Name: ins, K: next, V: 1 + r.Intn(3)})
+				next++
+			case len(look) > 0:
+				ops = append(ops, pop{Name: look[r.Intn(len(look))], K: 1 + r.Intn(next-1), V: 1})
+			default:
+				ops = append(ops, pop{Name: "Size", K: 1})
+			}
+		}
+		p.Threads = append(p.Threads, ops)
+	}
+}
+
+// block: consumers in the blocking dequeue of an unbounded queue, producers
+// that never dequeue and together put at least as many elements as there are
+// blocking calls (so every one of them is served, whatever the schedule); the
+// producers start late and pause between puts, so that several consumers wait
+// at once and one put wakes more waiters than it brings elements.
+func genBlock(r *rand.Rand, co *cobj, p *program, mk func(string) pop) {
+	p.Shape = "block"
+	put := func() pop { return mk(co.Puts[r.Intn(len(co.Puts))]) }
+	if r.Intn(4) == 0 {
+		p.Prefix = append(p.Prefix, put())
+	}
+	nc := 2 + r.Intn(2)
+	np := 1
+	if nc == 2 {
+		np += r.Intn(2)
+	}
+	gets := 0
+	for t := 0; t < nc; t++ {
+		var ops []pop
+		for i, n := 0, 1+r.Intn(3); i < n; i++ {
+			switch x := r.Intn(8); {
+			case x < 6 || i == 0:
+				ops = append(ops, mk(co.Get))
+				gets++
+			case x == 6:
+				ops = append(ops, mk("Size"))
+			default:
+				ops = append(ops, put())
+			}
+		}
+		p.Threads = append(p.Threads, ops)
+	}
+	prod := make([][]pop, np)
+	for i, n := 0, gets+r.Intn(2); i < n; i++ {
+		t := i % np
+		op := put()
+		if len(prod[t]) == 0 {
+			if r.Intn(5) > 0 {
+				op.Pause = 100 + r.Intn(300)
+			}
+		} else if r.Intn(5) < 3 {
+			op.Pause = 1 + r.Intn(200)
+		}
+		prod[t] = append(prod[t], op)
+		if r.Intn(3) == 0 {
+			prod[t] = append(prod[t], mk("Size"))
+		}
+	}
+	p.Threads = append(p.Threads, prod...)
 }
 
 // how long a whole history may take
@@ -384,91 +670,183 @@ func runProgram(co *cobj, p *program, stamped bool, r *rand.Rand) (log []Ev, pan
 		stamp int64
 		ev    Ev
 	}
+	// what a goroutine keeps of one call while the history runs: as little as
+	// possible (two stamps and the projected result), so that the time between
+	// two calls is not dominated by the recording; events are built afterwards
+	type raw struct {
+		t0, t1 int64
+		th     int
+		op     pop
+		res    Ev
+		msg    string
+	}
 	var clock int64
-	logs := make([][]rec, len(p.Threads)+1) // last: the prefix
-	npan := make([]int, len(p.Threads)+1)
-	yields := make([][]bool, len(p.Threads))
-	for t := range p.Threads {
-		yields[t] = make([]bool, len(p.Threads[t]))
-		for i := range yields[t] {
-			yields[t][i] = r.Intn(3) == 0
-		}
-	}
-	do := func(slot, th int, op pop) bool {
-		var inv Ev
-		if stamped {
-			inv = Ev{"ev": "Inv", "p": th, "o": op.Name, "k": op.K, "v": op.V}
-			logs[slot] = append(logs[slot], rec{atomic.AddInt64(&clock, 1), inv})
-		}
-		var res Ev
-		msg := core.Guard(func() { res = co.Call(op) })
-		var st int64 // unstamped: no atomic either (it would order the goroutines for the race detector)
-		if stamped {
-			st = atomic.AddInt64(&clock, 1)
-		}
-		if msg != "" {
-			npan[slot]++
-			if len(msg) > 160 {
-				msg = msg[:160]
-			}
-			logs[slot] = append(logs[slot], rec{st, Ev{"ev": "Panic", "p": th, "o": op.Name, "msg": msg}})
-			return false
-		}
-		if stamped {
-			for k, v := range res {
-				inv[k] = v
-			}
-			logs[slot] = append(logs[slot], rec{st, Ev{"ev": "Ret", "p": th, "o": op.Name}})
-		}
-		return true
-	}
-	merge := func() []Ev {
-		var all []rec
-		for _, l := range logs {
-			all = append(all, l...)
-		}
-		sort.Slice(all, func(i, j int) bool { return all[i].stamp < all[j].stamp })
-		out := make([]Ev, len(all))
-		for i, x := range all {
-			out[i] = x.ev
-		}
-		for _, n := range npan {
-			panics += n
-		}
-		return out
-	}
-	if p.Max > 0 {
-		co.SetMax(p.Max)
-	}
-	for _, op := range p.Prefix {
-		if !do(len(p.Threads), 0, op) {
-			return merge(), panics, true
-		}
-	}
-	start := make(chan struct{})
-	var wg sync.WaitGroup
 	var arrived int32
 	nth := int32(len(p.Threads))
+	// lockstep: before its i-th call a goroutine waits (spinning, for a bounded
+	// time) until the others are about to make their i-th call too, so that the
+	// calls of one round start within nanoseconds of each other -- the calls of a
+	// history last a few hundred nanoseconds each, and goroutines that merely
+	// start together drift apart after the first.  Harness-side only.
+	var round []int32
+	var need []int32
+	if p.Step {
+		for _, ops := range p.Threads {
+			for i := range ops {
+				if i >= len(need) {
+					need = append(need, 0)
+				}
+				need[i]++
+			}
+		}
+		round = make([]int32, len(need))
+	}
+	start := make(chan struct{})
+	raws := make([][]raw, len(p.Threads)+1) // last: the prefix
 	for t := range p.Threads {
-		wg.Add(1)
-		go func(t int) {
-			defer wg.Done()
+		raws[t] = make([]raw, 0, len(p.Threads[t]))
+	}
+	raws[len(p.Threads)] = make([]raw, 0, len(p.Prefix))
+	// before a call: nothing (half of them), a yield, a short or a longer sleep
+	delays := make([][]int, len(p.Threads))
+	for t := range p.Threads {
+		delays[t] = make([]int, len(p.Threads[t]))
+		for i := range delays[t] {
+			x := r.Intn(8)
+			if p.Shape == "duel" && r.Intn(4) > 0 { // a duel is about calls that meet: mostly back to back
+				x = 0
+			}
+			switch {
+			case x < 4:
+			case x < 6:
+				delays[t][i] = -1
+			case x == 6:
+				delays[t][i] = 1 + r.Intn(60)
+			default:
+				delays[t][i] = 50 + r.Intn(200)
+			}
+			if d := p.Threads[t][i].Pause; d > 0 {
+				delays[t][i] = d
+			}
+		}
+	}
+	if p.Procs > 0 {
+		prev := runtime.GOMAXPROCS(p.Procs)
+		defer runtime.GOMAXPROCS(prev)
+	}
+	// the calls are bound before the goroutines start (no name lookup between
+	// two calls); a goroutine runs its list in one loop under ONE recover: a
+	// panic ends it, as before, and is recorded for the call that raised it
+	bind := func(op pop) func() Ev {
+		if co.Bind != nil {
+			if f := co.Bind(op); f != nil {
+				return f
+			}
+		}
+		return func() Ev { return co.Call(op) }
+	}
+	runList := func(slot, th int, ops []pop, dl []int) (ok bool) {
+		calls := make([]func() Ev, len(ops))
+		for i, op := range ops {
+			calls[i] = bind(op)
+			raws[slot] = append(raws[slot], raw{th: th, op: op})
+		}
+		rs := raws[slot]
+		if slot < len(p.Threads) { // the barrier: the goroutines leave it together, each on its own processor
 			<-start
-			// spin barrier: the goroutines leave it together, each on its own processor
 			atomic.AddInt32(&arrived, 1)
 			for spins := 0; atomic.LoadInt32(&arrived) < nth && spins < 1<<22; spins++ {
 				if spins%1024 == 1023 {
 					runtime.Gosched()
 				}
 			}
-			for i, op := range p.Threads[t] {
-				if yields[t][i] {
-					runtime.Gosched()
+		}
+		cur := 0
+		defer func() {
+			if r := recover(); r != nil {
+				msg := fmt.Sprint(r)
+				if msg == "" {
+					msg = "panic"
 				}
-				if !do(t, t, op) {
-					return
+				rs[cur].msg = msg
+				if stamped {
+					rs[cur].t1 = atomic.AddInt64(&clock, 1)
+				}
+				raws[slot] = rs[:cur+1]
+				ok = false
+			}
+		}()
+		for i, call := range calls {
+			cur = i
+			if round != nil && dl != nil {
+				atomic.AddInt32(&round[i], 1)
+				for spins := 0; atomic.LoadInt32(&round[i]) < need[i] && spins < 1<<16; spins++ {
+					if spins%256 == 255 {
+						runtime.Gosched()
+					}
+				}
+			} else if dl != nil {
+				if d := dl[i]; d < 0 {
+					runtime.Gosched()
+				} else if d > 0 {
+					time.Sleep(time.Duration(d) * time.Microsecond)
 				}
 			}
+			if stamped { // unstamped: no atomic either (it would order the goroutines for the race detector)
+				rs[i].t0 = atomic.AddInt64(&clock, 1)
+				rs[i].res = call()
+				rs[i].t1 = atomic.AddInt64(&clock, 1)
+			} else {
+				call()
+			}
+		}
+		return true
+	}
+	merge := func() []Ev {
+		var all []rec
+		for _, l := range raws {
+			for _, x := range l {
+				if stamped {
+					inv := Ev{"ev": "Inv", "p": x.th, "o": x.op.Name, "k": x.op.K, "v": x.op.V}
+					if x.msg == "" {
+						for k, v := range x.res {
+							inv[k] = v
+						}
+					}
+					all = append(all, rec{x.t0, inv})
+				}
+				if x.msg != "" {
+					panics++
+					msg := x.msg
+					if len(msg) > 160 {
+						msg = msg[:160]
+					}
+					all = append(all, rec{x.t1, Ev{"ev": "Panic", "p": x.th, "o": x.op.Name, "msg": msg}})
+				} else if stamped {
+					all = append(all, rec{x.t1, Ev{"ev": "Ret", "p": x.th, "o": x.op.Name}})
+				}
+			}
+		}
+		sort.SliceStable(all, func(i, j int) bool { return all[i].stamp < all[j].stamp })
+		out := make([]Ev, len(all))
+		for i, x := range all {
+			out[i] = x.ev
+		}
+		return out
+	}
+	if p.Max > 0 {
+		co.SetMax(p.Max)
+	}
+	if !runList(len(p.Threads), 0, p.Prefix, nil) {
+		log = merge()
+		return log, panics, true
+	}
+	var wg sync.WaitGroup
+	for t := range p.Threads {
+		wg.Add(1)
+		go func(t int) {
+			defer wg.Done()
+			runList(t, t, p.Threads[t], delays[t])
 		}(t)
 	}
 	close(start)
@@ -476,7 +854,8 @@ func runProgram(co *cobj, p *program, stamped bool, r *rand.Rand) (log []Ev, pan
 	go func() { wg.Wait(); close(done) }()
 	select {
 	case <-done:
-		return merge(), panics, true
+		log = merge()
+		return log, panics, true
 	case <-time.After(historyWatchdog):
 		return nil, 0, false
 	}
